@@ -112,6 +112,40 @@ pub fn run(ctx: &Ctx) -> Report {
     let n = jobs.len() / 2;
     let st = explore(&ctx.pool, jobs, j);
     rep.part("collisions at every position x kind", st, serde_json::json!({"scenarios": n, "d": d}));
+    // the existence probe itself may fail: an error must not be read as "absent"
+    {
+        let w = Worker::new(46, &ctx.pool.bins);
+        let mut jobs = vec![];
+        let mut errs = vec![];
+        let mut nsites = 0;
+        for s in scenarios(true).into_iter().filter(|s| s.name.contains("-fwd-") && (s.name.contains("noclobber-file-at") || s.name.contains("noclobber-dangling-link-at") || s.name.contains("noclobber-dir-at-d"))) {
+            let sa = Arc::new(s.clone());
+            let base = RunSpec::base(Policy::P0);
+            let rec = match w.run(&s, &base) {
+                Ok(r) => r,
+                Err(e) => {
+                    errs.push(format!("recording run of {}: {}", s.name, e));
+                    continue;
+                }
+            };
+            let mut cnt: std::collections::BTreeMap<(usize, String), usize> = std::collections::BTreeMap::new();
+            for e in &rec.events {
+                let c = cnt.entry((e.th, e.name.clone())).or_insert(0);
+                *c += 1;
+                if matches!(e.name.as_str(), "statx" | "newfstatat" | "stat" | "lstat" | "access" | "faccessat" | "faccessat2") && e.rel.as_deref().map(|r| r.starts_with("dst")).unwrap_or(false) {
+                    nsites += 1;
+                    for en in [libc::EIO, libc::EACCES, libc::ENOMEM] {
+                        let mut sp = base.clone();
+                        sp.faults.push(crate::sup::Fault { call: e.name.clone(), thread: Some(rec.threads[e.th].clone()), nth: Some(*c), path_contains: None, action: crate::sup::Action::Errno(en) });
+                        jobs.push((sa.clone(), sp, 0usize));
+                    }
+                }
+            }
+        }
+        let st = explore(&ctx.pool, jobs, j);
+        rep.part("every stat of a destination path failing with EIO / EACCES / ENOMEM", st, serde_json::json!({"sites": nsites}));
+        rep.machinery_errors.extend(errs);
+    }
     rep.assumptions = vec!["a source directory onto an existing directory may be refused or merged (left open by the property)".into()];
     rep
 }
